@@ -150,7 +150,7 @@ if has_create and has_table and not has_as: return
 `.value` of a group is its text. -/
 def functionsSkip (upper : Text → Text) (ks : List Node) : Bool :=
   ks.any (fun k => upper k.value == txt "CREATE") && ks.any (fun k => upper k.value == txt "TABLE")
-    && !(ks.any (fun k => k.value == txt "AS"))
+    && !(ks.any (fun k => upper k.value == txt "AS"))
 
 def functionsLoop (upper : Text → Text) : Nat → List Node → Option (Nat × Node) → Except PyErr (List Node)
   | _, ks, none => .ok ks
